@@ -114,17 +114,32 @@ def make_classes():
         """Bare CircuitRunner protocol (no base class): returns for circuit i the exact basis
         outcome of circuit i, n + extra times."""
 
-        def __init__(self, extra=0):
+        def __init__(self, extra=0, recycle=False):
             self.extra = extra
+            # a back-end may recycle its result objects: the Measurements object it returned for batch position i
+            # (same register width, same shot count) is refilled - its public `bitstrings` attribute replaced - and
+            # returned again by a later call.  Legal: every object it returns holds exactly the shots of that call.
+            self.recycle = recycle
+            self._buffers = {}
             self.batch_calls = []
             self.n_jobs_executed = 0
             self.n_circuits_executed = 0
             self.fail_next = False
 
-        def _measure(self, circuit, n):
+        def _measure(self, circuit, n, pos=0):
             state = refmodel.run_circuit(circuit.operations, circuit.n_qubits)
             i = int(np.argmax(np.abs(state)))
-            return Measurements([refmodel.bits_of(i, circuit.n_qubits)] * (n + self.extra))
+            shots = [refmodel.bits_of(i, circuit.n_qubits)] * (n + self.extra)
+            if self.recycle:
+                key = (pos, circuit.n_qubits, n)
+                m = self._buffers.get(key)
+                if m is not None:
+                    m.bitstrings = shots
+                    self.recycled = getattr(self, "recycled", 0) + 1
+                    return m
+                m = self._buffers[key] = Measurements(shots)
+                return m
+            return Measurements(shots)
 
         def run_and_measure(self, circuit, n_samples):
             if n_samples <= 0:
@@ -143,7 +158,7 @@ def make_classes():
                 raise BackendFault("simulated batch failure")
             self.n_jobs_executed += 1
             self.n_circuits_executed += len(circuits_batch)
-            return [self._measure(c, n) for c, n in zip(circuits_batch, ns)]
+            return [self._measure(c, n, pos) for pos, (c, n) in enumerate(zip(circuits_batch, ns))]
 
         def get_measurement_outcome_distribution(self, circuit, n_samples):
             return self.run_and_measure(circuit, n_samples).get_distribution()
